@@ -144,7 +144,9 @@ Section Ser.
             inr ({| s_stack := fs_pop (s_stack st) (undeclared || has_decls); s_undeclared := und' |}, t)
         end
     | OPrefix p ns =>
-        if N.eqb p (n_xml_prefix nm) && N.eqb ns (n_xml_ns nm) then inr (st, tok false [])
+        (* the implicit binding of the xml prefix is not written; a declaration of it on the element itself is *)
+        if N.eqb p (n_xml_prefix nm) && N.eqb ns (n_xml_ns nm) && negb (existsb (fun d => N.eqb (fst d) p) (declarations z))
+        then inr (st, tok false [])
         else
           let uri := serialize_attribute (n_ns_str nm ns) in
           if N.eqb p ep then inr (st, tok true (s_xmlns ++ [61; 34] ++ uri ++ [34]))
